@@ -257,6 +257,9 @@ func init() {
 			return Err()
 		}
 		inc, ok, amb := parseFloatArg(a[3])
+		if nonFinite(a[3]) {
+			return errOr(db, a[1], KHash, Err())
+		}
 		if amb {
 			return Unspecified("float spelling")
 		}
